@@ -148,6 +148,13 @@ func newContracts() *Contracts {
 	return &Contracts{Funcs: map[string]*FuncContract{}, Specs: map[string]*SpecFunc{}, Lemmas: map[string]*Lemma{}, FuncTys: map[string]*FuncContract{}}
 }
 
+// verifiedDep: a contract in /verif/contracts/external on a function of a dependency that is NOT
+// assumed: `opt verify=source` makes govc verify the function's body as found in the module cache
+// (the version go.mod pins, i.e. the code the build links) like any function of the repository.
+func (fc *FuncContract) verifiedDep() bool {
+	return fc.External && fc.Trusted == "" && fc.Opts["verify"] == "source"
+}
+
 var stmtKeywords = map[string]bool{
 	"spec": true, "pred": true, "lemma": true, "axiom": true, "func": true, "interface": true, "functype": true,
 	"prop": true, "mode": true, "requires": true, "ensures": true, "panics": true, "modifies": true,
